@@ -107,6 +107,18 @@ fn check_aln(what: &str, aln: &Alignment, h: &Hit, m: usize, n: usize) -> Result
     Ok(())
 }
 
+
+/// An `Alignment` as a caller might recycle it: default, filled with unrelated junk, or left over from
+/// another alignment of sequences of the *same lengths* (xlen = m, ylen = n but other coordinates/mode).
+/// Every field must be (re)written by the Myers API.
+fn recycled(m: usize, n: usize, variant: usize) -> Alignment {
+    match variant % 3 {
+        0 => Alignment::default(),
+        1 => Alignment { score: -77, ystart: 91, xstart: 17, yend: 93, xend: 19, ylen: n + 13, xlen: m + 7, operations: vec![AlignmentOperation::Xclip(3), AlignmentOperation::Del], mode: AlignmentMode::Custom },
+        _ => Alignment { score: 5, ystart: 1, xstart: m.min(5), yend: n, xend: m.saturating_sub(1), ylen: n, xlen: m, operations: vec![AlignmentOperation::Yclip(1), AlignmentOperation::Match], mode: AlignmentMode::Local },
+    }
+}
+
 #[derive(Default)]
 pub struct Stats {
     pub hits: usize,
@@ -151,7 +163,7 @@ macro_rules! impl_tb {
             // (c) next_alignment
             {
                 let mut it = my.find_all(text.iter(), kk);
-                let mut aln = Alignment::default();
+                let mut aln = recycled(m, n, 2);
                 let mut idx = 0;
                 while it.next_alignment(&mut aln) {
                     ensure!(idx < hits.len(), "{}::next_alignment yields more hits than next_path", name);
@@ -174,6 +186,7 @@ macro_rules! impl_tb {
                     ensure!(s == Some(h.start), "{}::start() = {:?}, next_path start {}", name, s, h.start);
                     let s = it.path(&mut ops);
                     ensure!(s == Some(h.start) && ops == h.ops, "{}::path() = {:?} {:?}, next_path {:?}", name, s, ops, h);
+                    aln = recycled(m, n, idx);
                     ensure!(it.alignment(&mut aln), "{}::alignment() refused on a current hit", name);
                     check_aln(&format!("{}<u{}>::alignment", name, c.width), &aln, h, m, n)?;
                     idx += 1;
@@ -255,8 +268,7 @@ macro_rules! impl_tb {
                         let h = Hit { start: s, end: e + 1, dist: d, ops };
                         ensure!(d == want_d, "{}: distance {} but the DP value at that end is {}", what, d, want_d);
                         validate_path(&what, c, text, &h, dp)?;
-                        let mut aln = Alignment::default();
-                        aln.operations.push(AlignmentOperation::Xclip(3));
+                        let mut aln = recycled(m, n, e);
                         ensure!(lazy.alignment_at(e, &mut aln), "{}: alignment_at refused an already searched end", what);
                         check_aln(&what, &aln, &h, m, n)?;
                         if let Some(eh) = eager.iter().find(|x| x.end == e + 1) {
